@@ -328,6 +328,7 @@ def fam_lastmeta(rng, tier, i):
         s.append("fs_cut index:m %d" % rng.randrange(1, 16))
     s += [open_line("m"), "len", "range", "last_line", "read_all i%d u" % (tB - 1), "n_lines i%d u" % (last - 3),
           "read_first_n 2 i%d u" % (tB + 1),
+          "push %d %s" % (last, hexb(payload(rng, p))), "push %d %s" % (last - 1, hexb(payload(rng, p))),
           "push %d %s" % (last + 1, hexb(payload(rng, p))), "push %d %s" % (last + 65000, hexb(payload(rng, p))),
           "read_all i%d u" % (last - 2), "close", open_line("m"), "len", "range", "read_all i%d u" % (last - 2), "close", "dump"]
     return {"family": "lastmeta", "lines": s, "tags": {"p%d" % p, "big"}}
@@ -569,7 +570,7 @@ def fam_torn(rng, tier, i, no_marker=True):
     """cut the data file at a byte length, put the index into some crash state, open (C05 C03 C12 C15)"""
     p = rng.choice([0, 1, 2, 3, 4, 5, 8])
     n = rng.choice([1, 2, 3, 4, 6])
-    multi = rng.random() < 0.25      # several whole sections lost while the index still lists them; the lost lines are appended again
+    multi = rng.random() < 0.35      # several whole sections lost while the index still lists them; the lost lines are appended again
     if multi:
         n = rng.choice([3, 4, 6])
     lines = mk_lines(rng, p, n, shape="sparse" if multi else rng.choice(["mixed", "sparse", "edge", "jitter"]), no_marker=no_marker)
@@ -604,7 +605,7 @@ def fam_torn(rng, tier, i, no_marker=True):
             s += ["fs_cut index:t %d" % (16 * rng.randrange(0, 3)), "fs_write part:t 00000a0aaabb"]
         s.append(open_line("t"))
         repush = c == 0 and (multi or rng.random() < 0.5)
-        first = repush and (multi or rng.random() < 0.5)
+        first = repush and rng.random() < 0.5
         if first:
             # append again what the crash may have taken, right after the open (before any accessor could trip over a wrong
             # index): the lines that survived are refused (not newer than the last one), the lost ones are accepted -
@@ -698,6 +699,8 @@ def fam_caches(rng, tier, i, reopen=False, faults=False):
     and resampling reads through them (C11)"""
     p = rng.choice([0, 1, 2, 3, 4, 6])
     Bs = sorted(rng.sample([1, 2, 3, 4, 7, 10], rng.choice([1, 1, 2, 3])))
+    if rng.random() < 0.3:
+        Bs = sorted(set(Bs) | {1})           # a level with bucket size 1 is level with its source after every append
     n = rng.choice([3, 7, 12, 20, 31])
     big = rng.random() < 0.25
     base = (2**63 + rng.randrange(0, 2**62)) if big else None
@@ -861,6 +864,21 @@ def fam_resample(rng, tier, i):
     s += ["read_n 1 u u", "read_n 2 u u", "read_n %d u u" % max(1, n // 2)]
     return {"family": "resample", "lines": s, "tags": {"p%d" % p} | ({"bigts"} if big else set())}
 
+_PREAMBLE_PARTS = None
+def data_header_overhead(p):
+    """bytes of the data file's header that are not the user header: u32 text length + preamble text for payload size p
+    (texts as tools/translate.py reads them in the source; the line count replaces NUMB_LINES)"""
+    global _PREAMBLE_PARTS
+    if _PREAMBLE_PARTS is None:
+        import translate
+        c = translate.extract()
+        _PREAMBLE_PARTS = ([bytes(x) for x in c["preamble_parts"]], c["version"])
+    (a, b, c_, d), ver = _PREAMBLE_PARTS
+    raw = a + b"NUMB_LINES" + b + str(ver).encode() + c_ + str(p).encode() + d
+    nl = raw.count(b"\n") + (0 if raw.endswith(b"\n") else 1)
+    text = a + str(nl).encode() + b + str(ver).encode() + c_ + str(p).encode() + d
+    return 4 + len(text)
+
 def fam_contract(rng, tier, i):
     """create/open contract (C17)"""
     p = rng.choice(SMALL_P + [17])
@@ -882,6 +900,16 @@ def fam_contract(rng, tier, i):
         s += ["fs_write index:k 00000a0a", new_line("k", p, hdr), "dump", "fs_rm index:k", new_line("k", p, hdr), "close"]
     elif r < 0.6:
         s += ["fs_write cdata:k:2 00000a0a", new_line("k", p, hdr, (2,)), "dump"]
+    elif r < 0.72:
+        # user headers at the very top of what the 16 bit length field admits: the largest ones are stored, returned on
+        # reopen and enforced like any other; one byte more is refused and leaves nothing
+        top = 65535 - data_header_overhead(p)
+        d = rng.choice([0, 0, 1, 2, 3, 4, 5])
+        big = bytes((rng.randrange(256) for _ in range(8))) * ((top - d) // 8) + bytes(rng.randrange(256) for _ in range((top - d) % 8))
+        l2 = mk_lines(rng, p, 3, shape="jitter", base=rng.choice([7, 2**40]), no_marker=True)
+        s += [new_line("h", p, big + b"\x00" * (d + 1)), "dump", new_line("h", p, big)] + push_lines(l2[:2]) + ["read_all u u", "close",
+              open_line("h", rng.choice(["any", p]), "any"), "read_all u u", "range"] + push_lines(l2[2:]) + ["len", "close",
+              open_line("h", "any", big), "len", "close", open_line("h", "any", big[:-1] + bytes([big[-1] ^ 1])), "close"]
     elif r < 0.85:
         # the path is given with the extension on create, with cache levels; then opened without / with it
         cs = rng.choice([(2,), (3,), (2, 5)])
@@ -941,8 +969,25 @@ def fam_corrupt(rng, tier, i):
     last_sec = secpos[-1]
     seq_ts = {t for t, _ in seq}
     kind = rng.choice([1, 1, 2, 3] if p >= 4 else [1, 1, 2])
+    if mode == "small" and rng.random() < 0.2:
+        kind = 4
     cb = rng.choice(["none", "deny", "allow", "allow", "allow"])
     word = rng.choice(["0100", "0000", "feff", "fffe", "%02x%02x" % (rng.randrange(255), rng.randrange(256))])
+    if kind == 4:
+        # the second marker line of the LAST section (which holds several lines): after the reopen the index no longer lists
+        # that section, its lines lie behind a lone marker inside the reach of the section before it. Reads that start there
+        # must not hand out those lines under the wrong full timestamp (the judge does not determine this state; the literal
+        # "no line nobody appended" reading does)
+        j = last_sec
+        prev_full = max(it[1] for it in lay[:j] if it[0] == "S")
+        prev_last = max(it[1] for it in lay[:j] if it[0] == "L")
+        s.append("fs_patch data:d %d %s" % ((total - (idx[j] + 1)) * L, word))
+        s.append(open_line("d", "any", "any", (), cb))
+        for _ in range(6):
+            x = rng.randrange(prev_last + 1, max(prev_last + 2, prev_full + 65535))
+            s.append(rng.choice(["read_all i%d u", "read_first_n 3 i%d u", "read_all e%d u", "read_first_n 1 i%d u"]) % x)
+        s += ["read_all i%d u" % (prev_last + 1), "read_all u u", "close"]
+        return {"family": "corrupt", "lines": s, "tags": {"p%d" % p, "cb_" + cb, "kind4", mode}}
     if kind == 1:
         # second marker line of a section that is neither the first nor the last -> a non-marker line
         cands = [j for j in secpos if j != last_sec and j > 0]
@@ -981,7 +1026,19 @@ def fam_corrupt(rng, tier, i):
         reads.append("read_all %s %s" % (lo, hi))
     reads.append("read_first_n %d i%d u" % (rng.choice([1, 2, 50]), rng.choice(tss)))
     rng.shuffle(reads)
-    s += ["read_all u u"] + reads + ["n_lines u u", "len", "last_line", "read_n 3 u u", "read_all u u", "close"]
+    pre_reads = []
+    if rng.random() < 0.5:
+        # calls that end early - a resampling read behind the data, inside a time gap, or of zero samples - must not use up the
+        # callback: the reads over the damage that follow in the same session still get the user's consent
+        tmax = max(tss)
+        gaps = [(a, b) for a, b in zip(sorted(tss), sorted(tss)[1:]) if b - a > 70000]
+        pre_reads = ["read_n 10 i%d u" % min(tmax + 1000, U64 - 1)]
+        if gaps:
+            a, b = rng.choice(gaps)
+            pre_reads.append("read_n 10 i%d i%d" % (a + 66000, b - 1000) if b - 1000 > a + 66000 else "read_n 0 u u")
+        pre_reads.append("read_n 0 u u")
+        rng.shuffle(pre_reads)
+    s += pre_reads + ["read_all u u"] + reads + ["n_lines u u", "len", "last_line", "read_n 3 u u", "read_all u u", "close"]
     return {"family": "corrupt", "lines": s, "tags": {"p%d" % p, "cb_" + cb, "kind%d" % kind, mode} | ({"big"} if seq else set())}
 
 def fam_totality(rng, tier, i):
